@@ -1023,8 +1023,11 @@ func c40Validator(p *core.Prog, r *core.Report, rule string) {
 	}
 	nsize := 0
 	for _, n := range g.Nodes {
-		be, ok := n.N.(*ast.BinaryExpr)
-		if !ok || len(n.Succ) != 2 {
+		var be *ast.BinaryExpr
+		if ce, isE := n.N.(ast.Expr); isE { // also through a boolean temporary: tooLong := sz > max; if tooLong
+			be, _ = ast.Unparen(core.ResolveLocal(info, f.Decl.Body, ce)).(*ast.BinaryExpr)
+		}
+		if be == nil || len(n.Succ) != 2 {
 			continue
 		}
 		var tooLong bool // branch value meaning "too long"
@@ -1102,15 +1105,23 @@ func c40ShardWrite(p *core.Prog, r *core.Report) {
 		return true
 	})
 	r.Check(len(okObjs) >= 1, rule, name, "partial-test:absent", f.Pos(), "the validator's error is classified by a type assertion to PartialWriteError")
+	// nodes reachable from the validator's failure edge while verr still holds the
+	// validator's error (a later `x, err := otherCall()` that reuses the variable ends that)
+	reassigns := func(n *core.Node) bool { return n != vn && g.AssigningObj(verr)(n) }
+	holdsVerdict := g.Reach([]*core.Node{fail.To}, reassigns, nil)
 	hardErr := func(e *core.Edge) bool {
 		for _, o := range okObjs {
-			if rw3BoolEdge(info, e, o, false) {
+			if core.EdgeEstablishingM3(info, f.Decl.Body, core.BoolVarFact(info, o, false))(e) { // also through `hard := !ok; if hard`
 				return true
 			}
 		}
 		if g.FailEdge(e) {
 			x, _, _ := core.NilTest(info, e.Cond)
-			return core.ObjOf(info, x) != verr
+			if core.ObjOf(info, x) != verr {
+				return true
+			}
+			// the same variable, but reassigned by another call on every path to this test
+			return !holdsVerdict[e.From] || reassigns(e.From)
 		}
 		return false
 	}
